@@ -137,6 +137,30 @@ def run(ctx):
                     else:
                         H.violation("monkeytype.stubs:build_module_stubs_from_traces", "api-order-dependent:%s" % key, "the stub depends on the order in which equal traces / union members arrive",
                                     {"yield_types": yname, "k": k, "rewriter": rw}, sorted(set(o[-200:] for o in outs)))
+        # ---- two functions with the same qualified name in different modules: every arrival order of their traces gives the same two stubs
+        H.section("same qualname in two modules", "two modules each defining `total(x)` (and a class K with method `run`), 3 + 3 traces with different argument types, every permutation "
+                  "of the 6 traces through build_module_stubs_from_traces: both module stubs are the same for all orders", "720 permutations")
+        import itertools
+        from monkeytype.stubs import build_module_stubs_from_traces
+        for mn in ("c14same_a", "c14same_b"):
+            with open(os.path.join(fx.dir, mn + ".py"), "w") as f_:
+                f_.write("def total(x):\n    return x\n\nclass K:\n    def run(self, y):\n        return y\n")
+        importlib.invalidate_caches()
+        ma, mb = importlib.import_module("c14same_a"), importlib.import_module("c14same_b")
+        trs = [CallTrace(ma.total, {"x": int}, int), CallTrace(ma.total, {"x": str}, str), CallTrace(ma.K.run, {"y": bytes}, bytes),
+               CallTrace(mb.total, {"x": float}, float), CallTrace(mb.total, {"x": type(None)}, type(None)), CallTrace(mb.K.run, {"y": bool}, bool)]
+        seen = {}
+        for perm in itertools.permutations(trs):
+            st = build_module_stubs_from_traces(list(perm), 0)
+            seen.setdefault((canon(st["c14same_a"].render()), canon(st["c14same_b"].render())), perm)
+        if len(seen) == 1:
+            H.ok("same-qualname-two-modules", sample={"stub_a": list(seen)[0][0][-120:], "stub_b": list(seen)[0][1][-120:]})
+        else:
+            H.violation("monkeytype.stubs:build_module_stubs_from_traces", "order-dependent:same-qualname-two-modules:%d" % len(seen),
+                        "the stubs of two modules that define a function of the same qualified name depend on the order in which their traces arrive",
+                        {"traces": [repr(t) for t in trs]}, [list(k_) for k_ in list(seen)[:3]])
+        for mn in ("c14same_a", "c14same_b"):
+            sys.modules.pop(mn, None)
         # ---- raw duplicates beyond the query limit must not crowd out distinct traces
         H.section("duplicates vs limit", "the same distinct traces stored once vs. with one of them recorded many times; `stub --limit 3`", "2 stores")
         t_int, t_str = CallTrace(m.f, {"a": int}, int), CallTrace(m.f, {"a": str}, int)
